@@ -351,6 +351,24 @@ func runDispSeq(c *Ctx, in map[string]string) {
 		case "sleep":
 			time.Sleep(40 * time.Millisecond)
 			syncTmp()
+		case "nickecho":
+			// the client's nick changes and the echo of one of its own messages follows in the same segment:
+			// the PRIVMSG must be recognised as an echo (wildcard handlers only)
+			evCmd[nev], evEcho[nev] = "PRIVMSG", true
+			model = append(model, "e1:"+hx("PRIVMSG"))
+			d.srv.SetWriteDeadline(time.Now().Add(3 * time.Second))
+			if _, err := d.srv.Write([]byte(fmt.Sprintf(":me!me@my.host NICK newme\r\n:newme!me@my.host PRIVMSG #c :text n=%d\r\n", nev))); err != nil || !d.barrier(fmt.Sprintf("ne%d", nev)) {
+				c.R.Mismatch("disp.stalled", hin, fmt.Sprintf("no PONG after event %d", nev), "")
+				return
+			}
+			markDeadline(nev, time.Now())
+			nev++
+			waitExpected(nev-1, nev)
+			if !d.send(":newme!me@my.host NICK me") || !d.barrier("back") {
+				c.R.Mismatch("disp.stalled", hin, "no PONG after the nick change back", "")
+				return
+			}
+			syncTmp()
 		case "burst":
 			// several events back to back (no barrier in between): ordering across events is at stake
 			k, _ := strconv.Atoi(f[1])
@@ -560,6 +578,8 @@ func genDispScript(r *RNG, n int) string {
 			steps = append(steps, "clearall")
 		case k == 10:
 			steps = append(steps, "sleep")
+		case k == 13 && r.Chance(50):
+			steps = append(steps, "nickecho")
 		case k == 11 || k == 12:
 			steps = append(steps, fmt.Sprintf("burst:%d", 2+r.Intn(6)))
 		default:
@@ -585,6 +605,7 @@ func runC06(c *Ctx) {
 		"concurrent mode: a registrar goroutine adds/removes/clears while 30-90 events stream, judged by window predicates bracketed by a foreground wildcard recorder; sequential scripts of registration/removal/Clear/ClearAll/sleep interleaved with events (incl. echoes): invocations per event compared with the Lean dispatch model and judged for routing, exactly-once, ordering, removal, done channels, deadlines, panic containment; " +
 		"non-trivial = >= 3 events and >= 2 handlers"
 	corpus := []string{
+		"reg:add:PRIVMSG:normal,reg:add:*:normal,reg:addbg:privmsg:normal,ev:PRIVMSG:1,nickecho,ev:PRIVMSG:0,nickecho",
 		"reg:add:PRIVMSG:normal,reg:add:*:normal,reg:addhandler:notice:normal,reg:addbg:*:normal,burst:9,burst:6",
 		"reg:add:privmsg:normal,reg:addbg:PRIVMSG:normal,reg:add:*:normal,ev:PRIVMSG:0,ev:PRIVMSG:1,ev:NOTICE:0,rm:0,ev:PRIVMSG:0,clear:PrivMsg,ev:PRIVMSG:0,clearall,ev:PRIVMSG:0",
 		"reg:tmp:PRIVMSG:trueat1,ev:PRIVMSG:0,ev:PRIVMSG:0,reg:tmp:NOTICE:trueat2,ev:NOTICE:0,ev:NOTICE:0,ev:NOTICE:0,reg:tmpdl:301:normal,ev:301:0,sleep,ev:301:0",
